@@ -30,7 +30,9 @@ def run(chk, replay=None):
         stripped = [h.split(':')[0] for h in hs] if not srv else hs
         world = {'challenge': challenge, 'cluster_st': 200, 'cluster_body': json.dumps({'connectionStrings': {'standard': atlaslib.conn_string(hs, srv), 'standardSrv': 'mongodb+srv://x'}}),
                  'hosts': [{'status': 200, 'body': base64.b64encode(gzb).decode(), 'cut': -1} for _, gzb in payloads]}
-        r = atlaslib.run_cli(world, flags=cfg.cli_flags(), window=window)
+        # every other world is a SECOND run into the same --outputFile: longer outputs of an earlier run are already there
+        pre = {('out.log.%d' % i): (b'{"stale":"line from an earlier, longer run"}\n' * 400) for i in range(len(hs))} if len(worlds) > 1 and worlds.index((hs, srv, payloads, window, cfg, challenge)) % 2 == 1 else None
+        r = atlaslib.run_cli(world, flags=cfg.cli_flags(), window=window, pre_outs=pre)
         chk.count(); chk.traces += 1; chk.nontriv((tuple(hs), window, challenge))
         now = r['t0']
         # the model needs 'now' only for the default window; take it from the request the implementation made
@@ -39,7 +41,7 @@ def run(chk, replay=None):
             ls = [x for x in it if x.startswith('L')]
             if ls: now = int(ls[0].split(':')[3])
         m = atlaslib.model_run(cfg, challenge == 'digest', 200, [h.encode() for h in stripped], [('S', 200, gzb) for _, gzb in payloads], window, now, {gzb: data for data, gzb in payloads})
-        case = {'hosts': hs, 'srv': srv, 'window': window, 'challenge': challenge, 'flags': cfg.describe(), 'rc': r['rc'], 'stderr': r['stderr'].decode('utf-8', 'replace')[-300:]}
+        case = {'hosts': hs, 'srv': srv, 'window': window, 'challenge': challenge, 'second_run_same_output': pre is not None, 'flags': cfg.describe(), 'rc': r['rc'], 'stderr': r['stderr'].decode('utf-8', 'replace')[-300:]}
         i_outs = {int(k.rsplit('.', 1)[1]): v for k, v in r['outs'].items() if k.startswith('out.log.')}
         if it != m['trace'] or i_outs != m['outs'] or r['rc'] != m['status']:
             chk.disagree('request trace / per-host outputs / status', case, {'trace': it, 'outs': {k: v[:80] for k, v in i_outs.items()}, 'rc': r['rc']}, {'trace': m['trace'], 'outs': {k: v[:80] for k, v in m['outs'].items()}, 'rc': m['status']})
